@@ -137,3 +137,11 @@ def run(ctx, proofs_ok):
         ops.append(frag_line(chunks))
     for i in range(0, len(ops), 10000):
         vlib.correspond_stateless(ctx, h, ops[i:i + 10000], f"malformed{i//10000}", "malformed frames, inline commands, noise")
+
+    # the server ACTS on exactly those arguments: also when the command is queued by MULTI and runs
+    # later, after other commands have been parsed on the same connection
+    from checks import apicheck
+    apicheck.run_resp_streams(ctx, [
+        {"label": "commands queued in MULTI run with exactly the arguments they were sent with", "fams": ["strings", "lists", "hashes", "sets", "tx", "tx"],
+         "n": (800, 4000), "count": (2, 10), "conns": 2},
+    ], corpus=False)
